@@ -146,6 +146,15 @@ pub fn strict_walk(bytes: &[u8], in_use: &[u32]) -> Result<u32, String> {
     .unwrap_or_else(|m| Err(format!("panic: {m}")))
 }
 
+/// strict walk that also requires the page count of the authoring program
+pub fn strict_walk_pages(bytes: &[u8], in_use: &[u32], pages: usize) -> Result<u32, String> {
+    match strict_walk(bytes, in_use) {
+        Ok(n) if n as usize == pages => Ok(n),
+        Ok(n) => Err(format!("page count: wrote {pages} pages, strict re-open reports {n}")),
+        Err(e) => Err(e),
+    }
+}
+
 fn nontrivial(p: &Prog) -> bool {
     // rule: the document has a content stream with at least one painting call, i.e. at least one
     // stream object and several indirect objects with references between them
@@ -223,7 +232,7 @@ fn emit(ch: &mut Chans, p: &Prog, class: &str) {
             None => (vec![], 0, 0), // the Coq side will report both bits
         };
         let ids: Vec<u32> = objs.iter().map(|o| o.0).collect();
-        let strict = strict_walk(&bytes, &ids);
+        let strict = strict_walk_pages(&bytes, &ids, p.pages.len());
         let mut js = js;
         if let Err(e) = &strict {
             js["strict_error"] = json!(e);
@@ -245,7 +254,7 @@ fn emit(ch: &mut Chans, p: &Prog, class: &str) {
             Err(m) => (vec![], 0, Some(m)),
         };
         let ids: Vec<u32> = ents.iter().filter(|e| e.1 == 1).map(|e| e.0 as u32).collect();
-        let strict = strict_walk(&bytes, &ids);
+        let strict = strict_walk_pages(&bytes, &ids, p.pages.len());
         if let Err(e) = &strict {
             js["strict_error"] = json!(e);
         }
@@ -267,13 +276,98 @@ fn emit(ch: &mut Chans, p: &Prog, class: &str) {
         );
         ch.xs.push(coq, js, &format!("{class}:{}", p.cfg.label()), nt);
     } else {
+        // object streams: the table is decoded here; every type-1 and type-2 entry is fetched through the
+        // library's strict reader, and every object-stream container named by a type-2 entry is looked at
         let mut js = js;
-        let strict = strict_walk(&bytes, &[1, 2, 3]);
+        let (ents, _size, err) = match xref_stream_entries(&bytes) {
+            Ok((e, s)) => (e, s, None),
+            Err(m) => (vec![], 0, Some(m)),
+        };
+        let ids: Vec<u32> = ents.iter().filter(|e| e.1 == 1 || e.1 == 2).map(|e| e.0 as u32).collect();
+        let strict = if let Some(m) = &err { Err(format!("xref stream: {m}")) } else { strict_walk_pages(&bytes, &ids, p.pages.len()) };
+        let mut containers: Vec<u64> = ents.iter().filter(|e| e.1 == 2).map(|e| e.2).collect();
+        containers.sort();
+        containers.dedup();
+        let cont: Vec<String> = containers
+            .iter()
+            .map(|c| {
+                let e = ents.iter().find(|e| e.0 == *c);
+                let (ty, off) = e.map(|e| (e.1, e.2 as usize)).unwrap_or((9, 0));
+                let is_objstm = ty == 1
+                    && bytes.get(off..).map_or(false, |t| {
+                        let end = find_from(t, b"stream", 0).unwrap_or(0);
+                        let hdr = format!("{} 0 obj", c);
+                        t.starts_with(hdr.as_bytes()) && find_from(&t[..end], b"/ObjStm", 0).is_some()
+                    });
+                format!("({}, {}, {})", c, ty, coq_bool(is_objstm))
+            })
+            .collect();
         if let Err(e) = &strict {
             js["strict_error"] = json!(e);
         }
         js["file_len"] = json!(bytes.len());
-        ch.strict.push(format!("({}, {})", bytes.len(), coq_bool(strict.is_ok())), js, &format!("{class}:{}", p.cfg.label()), nt);
+        js["object_streams"] = json!(containers.len());
+        let members = ents.iter().filter(|e| e.1 == 2).count();
+        let got = strict.as_ref().map(|n| *n as usize).unwrap_or(0);
+        ch.strict.push(
+            format!("({}, {}, {}, {}, {})", p.pages.len(), got, coq_bool(strict.is_ok()), members, coq_list(cont)),
+            js,
+            &format!("{class}:{}:{}objstm", p.cfg.label(), containers.len()),
+            nt,
+        );
+    }
+}
+
+// ---------------------------------------------------------------- user-chosen names through the VALIDATED entry points
+/// `Page::add_color_space` / `Page::add_form_xobject` call `validate_pdf_resource_name`: a name is either
+/// rejected, or the written file must be valid and carry the chosen name as a key of the resource dictionary
+fn emit_name(out: &mut Out, entry: &str, name: &[u8], class: &str) {
+    use oxidize_pdf::geometry::{Point, Rectangle};
+    use oxidize_pdf::graphics::{DeviceColorSpace, FormXObject, PageColorSpace};
+    use oxidize_pdf::{Document, Page};
+    let mut js = json!({"entry": entry, "name": hex(name)});
+    let sname = match String::from_utf8(name.to_vec()) {
+        Ok(s) => s,
+        Err(_) => return,
+    };
+    let e2 = entry.to_string();
+    let res = catch(std::panic::AssertUnwindSafe(move || -> Result<Option<Vec<u8>>, String> {
+        let mut page = Page::new(200.0, 100.0);
+        let accepted = match e2.as_str() {
+            "cs" => page.add_color_space(sname.clone(), PageColorSpace::DeviceAlias(DeviceColorSpace::Rgb)).is_ok(),
+            _ => page.add_form_xobject(sname.clone(), FormXObject::new(Rectangle::new(Point::new(0.0, 0.0), Point::new(10.0, 10.0)))).is_ok(),
+        };
+        if !accepted {
+            return Ok(None);
+        }
+        let mut doc = Document::new();
+        doc.add_page(page);
+        let mut cfg = oxidize_pdf::writer::WriterConfig::default();
+        cfg.compress_streams = false;
+        doc.to_bytes_with_config(cfg).map(Some).map_err(|e| format!("{e:?}"))
+    }));
+    let cat = if entry == "cs" { "ColorSpace" } else { "XObject" };
+    match res {
+        Err(m) => out.impl_failures.push(json!({"what": format!("panic: {m}"), "case": js})),
+        Ok(Err(e)) => {
+            // accepted by the validated entry point but the writer refuses: neither rejection nor output
+            js["writer_error"] = json!(e);
+            out.push(format!("(nil, {}, {}, true, false)", coq_bytes(cat.as_bytes()), coq_bytes(name)), js, class, true);
+        }
+        Ok(Ok(None)) => {
+            js["accepted"] = json!(false);
+            out.push(format!("(nil, {}, {}, false, true)", coq_bytes(cat.as_bytes()), coq_bytes(name)), js, &format!("{class}:rejected"), false);
+        }
+        Ok(Ok(Some(bytes))) => {
+            js["accepted"] = json!(true);
+            let ids: Vec<u32> = classic_entries(&bytes).map(|v| v.iter().map(|e| e.0).collect()).unwrap_or_default();
+            let strict = strict_walk_pages(&bytes, &ids, 1);
+            if let Err(e) = &strict {
+                js["strict_error"] = json!(e);
+            }
+            let (cb, _) = coq_bytes_rle(&bytes);
+            out.push(format!("({}, {}, {}, true, {})", cb, coq_bytes(cat.as_bytes()), coq_bytes(name), coq_bool(strict.is_ok())), js, &format!("{class}:accepted"), true);
+        }
     }
 }
 
@@ -282,13 +376,19 @@ pub fn run(ctx: &Ctx) {
     let mut ch = Chans {
         file: Out::new(ctx, header, "bytes * bytes * list (N * N) * N * N * bool", "file_code"),
         xs: Out::new(ctx, header, "bytes * list (N * N * N * N) * N * bool * bool", "xs_code"),
-        strict: Out::new(ctx, header, "N * bool", "strict_code"),
+        strict: Out::new(ctx, header, "N * N * bool * N * list (N * N * bool)", "strict_code2"),
     };
+    let mut names = Out::new(ctx, header, "bytes * bytes * bytes * bool * bool", "names_code");
+    names.shard_size = 8;
     ch.file.shard_size = 6;
     ch.xs.shard_size = 6;
     if let Some(cases) = ctx.replay_cases() {
         for c in cases {
-            emit(&mut ch, &Prog::from_json(&c), "replay");
+            if let Some(e) = c.get("entry") {
+                emit_name(&mut names, e.as_str().unwrap_or("cs"), &unhex(c["name"].as_str().unwrap_or("")), "replay");
+            } else {
+                emit(&mut ch, &Prog::from_json(&c), "replay");
+            }
         }
     } else {
         let mut r = Rng::new(ctx.seed);
@@ -298,15 +398,41 @@ pub fn run(ctx: &Ctx) {
             let p = gen_prog(&mut r, i, budget);
             emit(&mut ch, &p, "gen");
         }
-        // object-stream configurations (slow to re-open: /Size 1000001): a few per run
+        // object-stream configurations (slow to re-open while /Size is 1000001): a few per run, of which
+        // one with a SECOND object stream (> 100 compressible objects) and one with a THIRD (> 200)
         let k = if ctx.thorough() { 4 } else { 2 };
         for i in 0..k {
             let mut p = gen_prog(&mut r, 0, 10);
             p.cfg = Cfg { xs: i % 2 == 0, os: true, compress: true, ver: "1.5".into() };
             emit(&mut ch, &p, "gen");
         }
+        let many: &[(usize, bool)] = if ctx.thorough() { &[(99, true), (120, false), (205, true), (330, true)] } else { &[(100 + (ctx.seed % 25) as usize, true), (201 + (ctx.seed % 40) as usize, false)] };
+        for (n, xs) in many {
+            let p = gen_many_pages(&mut r, *n, Cfg { xs: *xs, os: true, compress: true, ver: "1.5".into() });
+            emit(&mut ch, &p, "many");
+        }
+        // user-chosen resource names through the validated entry points: every Table 1 white-space byte and
+        // every Table 2 delimiter and '#', at the start / inside / at the end; regular names; random mixtures
+        let awkward: [u8; 17] = [0, 9, 10, 12, 13, 32, b'(', b')', b'<', b'>', b'[', b']', b'{', b'}', b'/', b'%', b'#'];
+        for entry in ["cs", "form"] {
+            for c in awkward {
+                for nm in [vec![b'C', b'S', c, b'X'], vec![c, b'C', b'S'], vec![b'C', b'S', c]] {
+                    emit_name(&mut names, entry, &nm, "awkward");
+                }
+            }
+            for nm in ["CS1", "A.B-C_D", "R", "x", "F+1", "a*b", "n~1"] {
+                emit_name(&mut names, entry, nm.as_bytes(), "regular");
+            }
+        }
+        let nr = if ctx.thorough() { 120 } else { 16 };
+        for i in 0..nr {
+            let len = r.range(1, 6) as usize;
+            let nm: Vec<u8> = (0..len).map(|_| if r.chance(1, 4) { *r.pick(&awkward) } else { *r.pick(b"ABCxyz019._-+") }).collect();
+            emit_name(&mut names, if i % 2 == 0 { "cs" } else { "form" }, &nm, "random");
+        }
     }
     ch.file.finish("file");
     ch.xs.finish("xs");
     ch.strict.finish("strict");
+    names.finish("names");
 }
